@@ -158,6 +158,10 @@ fn parse_ifdata_item(
             let mut seqitems = Vec::new();
             let mut checkpoint = parser.get_tokenpos();
             while let Ok(item) = parse_ifdata_item(parser, context, seqspec) {
+                if parser.get_tokenpos() == checkpoint {
+                    // the item did not consume any input, e.g. an empty taggedstruct. This would repeat forever
+                    break;
+                }
                 seqitems.push(item);
                 checkpoint = parser.get_tokenpos();
             }
